@@ -361,6 +361,7 @@ class SimStreamTransport(asyncio.Transport):
         self.inp = None  # Pipe we read from
         self.server = None
         self.close_time = None
+        self.close_reason = None  # "close" (protocol called close()), "eof", "reset", "fatal"
         self.lost = None  # (t, exc type name or None)
         self.fatal = None  # exception that escaped data_received
 
@@ -375,12 +376,13 @@ class SimStreamTransport(asyncio.Transport):
     def get_protocol(self):
         return self._protocol
 
-    def close(self):
+    def close(self, _reason="close"):
         if self._closing or self._closed:
             return
         self._closing = True
         self.close_time = self.loop.now
-        self.net.sim.log("tcp", "close", self.conn.name, self.side)
+        self.close_reason = _reason
+        self.net.sim.log("tcp", "close", self.conn.name, self.side, _reason)
         # we stop reading: whatever the peer still sends is lost
         if self.inp is not None:
             self.inp.discard()
@@ -502,7 +504,7 @@ class SimStreamTransport(asyncio.Transport):
             self.conn.reset(initiator=self, exc=exc)
             return
         if not (keep and keep[0]):
-            self.close()
+            self.close(_reason="eof")
 
     def _force_close(self, exc):
         """Immediate teardown of this side (reset / fatal error).  A no-op
@@ -514,6 +516,7 @@ class SimStreamTransport(asyncio.Transport):
         self._lost_scheduled = True
         if self.close_time is None:
             self.close_time = self.loop.now
+            self.close_reason = "fatal" if (self.fatal is not None and exc is self.fatal) else "reset"
         if self.inp is not None:
             self.inp.discard()
         self.loop.call_soon(self._call_connection_lost, exc)
@@ -544,7 +547,7 @@ class Connection:
     def __init__(self, net, index, caddr, saddr):
         self.net = net
         self.index = index
-        self.name = "c%d" % index
+        self.name = "%sc%d" % (net.prefix, index)
         self.caddr = caddr
         self.saddr = saddr
         self.c = None
@@ -650,8 +653,9 @@ class SimServer:
 
 
 class SimStreamNet:
-    def __init__(self, sim, client_ip="fd00::2"):
+    def __init__(self, sim, client_ip="fd00::2", prefix=""):
         self.sim = sim
+        self.prefix = prefix  # prepended to connection names (decision keys)
         self.loop = sim.loop
         self.listeners = []  # SimServer, in creation order
         self.conns = []
